@@ -465,7 +465,7 @@ Qed.
 (* an aggregate method agrees with the Python operation on list(q) whenever the DISTINCT used inside the aggregate function is
    the DISTINCT the query itself is executed with *)
 Theorem aggregate_list f arg q : q_window q = no_window ->
-  aggr_distinct f arg = eff_distinct q ->
+  aggr_distinct f arg q = eff_distinct q ->
   q_aggregate f arg q = Ok (py_aggregate f (q_list q)).
 Proof.
   intros Hw Hd. unfold q_aggregate. rewrite Hw. cbn [combine no_window fst snd combine_limit_and_offset].
@@ -488,8 +488,8 @@ Proof.
     - eapply Permutation_in in H; [|apply isort_perm].
       destruct b1, b2; cbn in *; rewrite ?(In_dedup Z.eqb Zeqb_spec) in *; assumption. }
   destruct Hf as [-> | ->]; cbn [py_aggregate];
-    [rewrite (zmin_set _ _ (Hi (aggr_distinct AMin arg) (eff_distinct q)))
-    |rewrite (zmax_set _ _ (Hi (aggr_distinct AMax arg) (eff_distinct q)))]; reflexivity.
+    [rewrite (zmin_set _ _ (Hi (aggr_distinct AMin arg q) (eff_distinct q)))
+    |rewrite (zmax_set _ _ (Hi (aggr_distinct AMax arg q) (eff_distinct q)))]; reflexivity.
 Qed.
 
 (* no selected rows: sum() is 0, min()/max()/avg() are None, count() is 0 *)
@@ -497,8 +497,13 @@ Theorem aggregate_empty f arg q : q_window q = no_window -> filter (q_keep q) (q
   q_aggregate f arg q = Ok (match f with ASum | ACount => VInt 0 | _ => VNone end).
 Proof.
   intros Hw He. unfold q_aggregate. rewrite Hw, He. cbn [combine no_window fst snd combine_limit_and_offset].
-  destruct f, (aggr_distinct _ arg); reflexivity.
+  destruct f, (aggr_distinct _ arg q); reflexivity.
 Qed.
+
+(* count() without arguments = len(list(q)) for every query, when it uses the DISTINCT the query runs with *)
+Theorem count_scalar_list q : count_default_follows_query = true -> q_window q = no_window ->
+  q_aggregate ACount None q = Ok (py_aggregate ACount (q_list q)).
+Proof. intros Hc Hw. apply aggregate_list; [assumption|]. unfold aggr_distinct. now rewrite Hc. Qed.
 
 End AggregateProofs.
 
